@@ -9,6 +9,7 @@ import os
 from ..ir import Program
 from .. import frontend, capcheck
 from . import capcommon
+from . import prim_common
 
 
 BOS_PAIR = {"destbos": ("dest", "b1"), "srcbos": ("src", "b2"), "strbos": ("str",), "basebos": ("base",)}
@@ -90,15 +91,17 @@ def run(ck):
     wr = wrapper_rule(ck, prog)
     if wr.get("wrappers", 0) < 100:
         ck.fail_broken("wrapper rule: only %d public wrapper macros matched a library function (< 100)" % wr.get("wrappers", 0))
+    prim = prim_common.primitive_rule(ck, prog, "C01", ck.report)
     fx = selftest(ck)
-    cov = dict(explanation="%d write obligations over all function definitions of the 140 TUs: %d discharged (offset and upper bound entailed from loop invariants, guards and the caller's "
+    cov = dict(primitives_by_byte_accounting={k: dict(paths=v.get("paths"), loops=v.get("loops"), iteration_paths=v.get("iteration_paths"), assumed_min_count=v.get("assumed_min_count"), call_sites=v.get("call_sites")) for k, v in prim.items()},
+               explanation="%d write obligations over all function definitions of the 140 TUs: %d discharged (offset and upper bound entailed from loop invariants, guards and the caller's "
                "truthfulness premise), %d outside the reach of the domain in %d functions (listed with reasons, not claimed), the rest matched against known findings or reported."
                % (st["total"], st["discharged"], st["outside_reach"], len(st["outside_reach_functions"])),
                obligations=st["total"], discharged=st["discharged"], outside_reach=st["outside_reach"], outside_reach_functions=st["outside_reach_functions"],
                fully_discharged_functions=st["fully_discharged_functions"], wrapper_macros=wr, fixtures=fx, frontend=info, no_slack_configuration=st.get("noslack", "thorough tier only"),
                summary="%d write obligations, %d discharged, %d outside reach" % (st["total"], st["discharged"], st["outside_reach"]))
     return ck.finish(cov, ["truthfulness premise: each caller buffer has at least the declared number of elements", "libc effect table (sa/effects.py) for delegated writes",
-                           "unsigned wrap-around of size arithmetic is ignored (sizes are bounded by RSIZE_MAX after the entry checks)", "functions listed in tables/cap_reach.json are not analysed"])
+                           "unsigned wrap-around of size arithmetic is ignored (sizes are bounded by RSIZE_MAX after the entry checks)", "functions listed in tables/cap_reach.json are not analysed by the bound engine; of these the seven mem_prim_* primitives are decided by the byte accounting of sa/accounting.py instead (all their stores/loads lie in [0, len*size))"])
 
 
 def selftest(ck):
